@@ -73,6 +73,7 @@ Fixpoint offends (t : jty) (v : value) (i : nat) (e : kind) : Prop :=
   | TUnit => i = 0 /\ e = KNull /\ kind_of v <> KNull
   | TBool => i = 0 /\ e = KBoolean /\ kind_of v <> KBoolean
   | TString => i = 0 /\ e = KString /\ kind_of v <> KString
+  | TNumber => i = 0 /\ e = KNumber /\ kind_of v <> KNumber
   | TOption t' => kind_of v <> KNull /\ offends t' v i e
   | TVec t' =>
       match v with
